@@ -487,6 +487,43 @@ def deliverRecv {δ ν} (env : Env δ ν) (junk : State ν) (c : Chain ν) (seq 
   | (.err _, tr) => ((c, .failed), tr)
   | (.panic _, tr) => ((c, .panicked), tr)
 
+/-! ### Genesis: who runs at the system-contract addresses
+
+`adapter/staking/adapter.go`, `adapter/gov/adapter.go` `InitGenesis` (called by `InitChainer` after every module's
+`InitGenesis`): `SetCode(genuine)`, `NewAccountWithAddress(system address)` — a fresh `EthAccount` — with
+`CodeHash := keccak(genuine)`, `SetAccount`: **whatever account the genesis document put at the address is overwritten**
+(its type, its code hash); evm storage under the address is not touched (the genuine contracts read none). -/
+
+inductive AcctKind where | eth | base
+  deriving DecidableEq, Repr
+
+/-- an account as the auth + evm genesis sections describe it. -/
+structure GenAccount where
+  kind : AcctKind
+  code : Bytes                       -- [] = no code
+  storage : List (Bytes × Bytes)
+  deriving DecidableEq, Repr
+
+/-- accounts by address after the modules' `InitGenesis`. -/
+abbrev Accounts := Addr → Option GenAccount
+
+/-- one adapter's `InitGenesis`. -/
+def installCode (genuine : Bytes) (prior : Option GenAccount) : GenAccount :=
+  { kind := .eth, code := genuine, storage := (prior.map (·.storage)).getD [] }
+
+/-- `adapter.Manager.InitGenesis`: staking adapter, then gov adapter. -/
+def adapterInitGenesis (genuine : SysC → Bytes) (accts : Accounts) : Accounts :=
+  fun a =>
+    if a = stakingAddr then some (installCode (genuine .staking) (accts a))
+    else if a = govAddr then some (installCode (genuine .gov) (accts a))
+    else accts a
+
+def codeAt (accts : Accounts) (a : Addr) : Bytes := ((accts a).map (·.code)).getD []
+
+/-- the premise under which a `Node.sys` frame is the right description of a call to a system address. -/
+def RunsGenuine (genuine : SysC → Bytes) (accts : Accounts) : Prop :=
+  ∀ c : SysC, codeAt accts c.addr = genuine c ∧ ((accts c.addr).map (·.kind)) = some .eth
+
 /-! ### Bank: `OverwriteBankKeeper.BurnCoins` -/
 
 abbrev Denom := String
